@@ -93,7 +93,7 @@ def main():
         ],
         "checks": [],
         "not_applicable": [],
-        "notes": "All checks are seeded (VERIF_SEED), run /repo's working tree in-process under gsim.World, and re-validate every violation by replaying the shrunk case in a fresh interpreter. Tiers are count-based with a wall-clock cap (skipped runs are counted in the evidence). Thorough tiers add complete fault-position sweeps. Exit 2 = harness error (never a pass). Eleven genuine defects of the pinned tree (F1-F11) were repaired by fix: commits (known_findings.json, DESIGN.md section 6); there is no known (unrepaired) finding. Sensitivity: ~90 seeded mutants, 121 independently written breaking changes (seeded/) and 30+ behaviour-preserving refactors (benign/), DESIGN.md section 10.",
+        "notes": "All checks are seeded (VERIF_SEED), run /repo's working tree in-process under gsim.World, and re-validate every violation by replaying the shrunk case in a fresh interpreter. Tiers are count-based with a wall-clock cap (skipped runs are counted in the evidence). Thorough tiers add complete fault-position sweeps. Exit 2 = harness error (never a pass). Eleven genuine defects of the pinned tree (F1-F11) were repaired by fix: commits (known_findings.json, DESIGN.md section 6); there is no known (unrepaired) finding. Sensitivity: 89 seeded mutants, 206 independently written breaking changes (seeded/, all detected) and 75 behaviour-preserving refactors (benign/, all silent), DESIGN.md section 10.",
     }
     for p in sorted(CHECKS):
         c = CHECKS[p]
